@@ -21,7 +21,7 @@ func init() {
 		Run:      runC16,
 		Explanation: "Decides structural necessary conditions of 'generated tokens are unique, untaken, sorted; the spread-minimising generator is reproducible': (R1) effect analysis of the call cone of SpreadMinimizingTokenGenerator.GenerateTokens: no clock, randomness, environment, goroutine, select, map iteration, package-level mutable state or FMA-fusable float expression, and the only receiver fields read are the instance and zone indexes; " +
 			"(R2) rejection sampling in every TokenGenerator implementation: the taken set is a map filled from every element of the taken-tokens argument, a candidate is appended only if absent from that map (random generator: and is then recorded), results are returned sorted (sort dominates the return, or an index-ordered filter of a sorted list); (R4) token accounting in the placement loop: on every path of one iteration the token counter is incremented exactly as often as a token is appended; " +
-			"(R3) partitions obtain tokens from the spread-minimising generator with their id, zone 0, nothing taken. (R5) the zone index is searched in a list that is sorted in place on every path where it is not sorted, so it does not depend on the configured zone order. Also: (R6) the instance index is the trailing number of the instance id: anchored pattern ending in the digits group, whose submatch is what is parsed. NOT decided: the spread bound, congruence modulo zone count, cross-instance disjointness (arithmetic of the placement algorithm).",
+			"(R3) partitions obtain tokens from the spread-minimising generator with their id, zone 0, nothing taken. (R5) the zone index is searched in a list that is sorted in place on every path where it is not sorted, so it does not depend on the configured zone order. Also: (R6) the instance index is the trailing number of the instance id: anchored pattern ending in the digits group, whose submatch is what is parsed. (R7) a Peek() pointer into a priority queue is never used after a reordering operation on that queue without a fresh Peek. NOT decided: the spread bound, congruence modulo zone count, cross-instance disjointness (arithmetic of the placement algorithm).",
 	}
 }
 
